@@ -120,6 +120,8 @@ def classify_ip(ctx, v):
     if w == "decision":
         add_violation(ctx, "C05", "address-literal decision", case)
         add_violation(ctx, "C01", "address decision (literal domain)", case)
+        if v["exp"] == 0:
+            add_violation(ctx, "C16", "a syntactically invalid literal is accepted, i.e. rc = 0 and a family flag set on an invalid address", case)
     elif w == "family flag":
         add_violation(ctx, "C05", "address family reported", case)
         add_violation(ctx, "C16", "result flag does not match the form of the domain", case)
@@ -290,6 +292,8 @@ def classify_email(ctx, v, optbits=0):
         exp, got = v["exp"], v["got"]
         if exp == 8 or got == 8:
             add_violation(ctx, "C09", "reserved-domain classification", case)
+            if exp != 8 and (exp in range(1, 10) or exp in (-23, -26)):
+                add_violation(ctx, "C07", "TLD classification: 'special' reported for a domain whose last label decides otherwise", case)
         elif exp in range(1, 10) or exp in (-23, -26) or got in range(1, 10):
             add_violation(ctx, "C07", "TLD classification", case)
         else:
@@ -337,8 +341,8 @@ def email_drift(ctx, res):
 def run_email_vectors(ctx, r, tag, optbits=0, variants=("default",)):
     sample_vectors(ctx, r["out"])
     for var in variants:
-        b = build(ctx, var, optbits)
-        res = replay(ctx, b, r["out"], tag)
+        b = build(ctx, "default" if var == "latin1" else var, optbits)
+        res = replay(ctx, b, r["out"], tag + "-" + var, env=vlib.latin1_locale(ctx) if var == "latin1" else None)
         crash_violation(ctx, res, ["C06", ctx.prop])
         for v in res["viol"]:
             if v["kind"] == "email":
@@ -356,10 +360,11 @@ def suite_tld(ctx, part, rowmod=8, rowrem=None, variants=("default",)):
         rowrem = ctx.seed % rowmod
     r = tlc_ok(ctx, "MC_Tld", cfg({"Part": part, "RowMod": rowmod, "RowRem": rowrem}))
     run_email_vectors(ctx, r, "tld-p%d-%d-%d" % (part, rowmod, rowrem), 0, variants)
+    return r
 
 
 def c01(ctx):
-    suite_email(ctx, 2, 0)
+    suite_email(ctx, 2, 0, variants=("default", "latin1"))
     suite_email(ctx, 2, 0, optbits=1)      # the mode-6531 rules are a build-time choice; the decision rule is the same
     suite_email(ctx, 2, 0, optbits=2)
     suite_ip(ctx, 2, 0)
@@ -373,7 +378,8 @@ def c01(ctx):
 
 
 def c07(ctx):
-    suite_tld(ctx, 1, 8 if ctx.quick() else 1, None if ctx.quick() else 0)
+    suite_tld(ctx, 1, 8 if ctx.quick() else 1, None if ctx.quick() else 0, variants=("default", "latin1"))   # case folding is locale-bound
+    suite_tld(ctx, 2)                      # listed TLDs behind / after reserved words keep their class
     suite_idn(ctx, (2,), maxlabels=1, variants=("default", "mkdebug"))      # internationalised TLDs in U-label form, long U-label
     # spellings, other dot code points; also on the Makefile's own `make debug` build (its traces must not change any outcome)
     suite_email(ctx, 2, 0, optbits=4)      # underscore build: the last label is still the whole last label
@@ -386,6 +392,7 @@ def c07(ctx):
 
 def c09(ctx):
     suite_tld(ctx, 2)
+    suite_idn(ctx, (2,), maxlabels=1)      # reserved names behind U-labels, other dot code points (mode 6531 converts first)
     suite_email(ctx, 2, 0, optbits=2)      # "no other domain is classified special" in the option builds too
     suite_email(ctx, 2, 0, optbits=1)
     return finish(ctx, "model_checking",
@@ -400,7 +407,7 @@ def c12(ctx):
     suite_email(ctx, 2, 0)
     suite_email(ctx, 1, 5 if q else 6)
     suite_ip(ctx, 2, 0)
-    suite_tld(ctx, 2)
+    suite_tld(ctx, 2, variants=("default", "extra"))      # the EAV_EXTRA arms are per-mode copies as well
     if not q:
         suite_tld(ctx, 1, 4)
     return finish(ctx, "model_checking",
@@ -428,6 +435,8 @@ def suite_idn(ctx, parts=(1, 2, 3), maxlabels=2, variants=("default",), prop="C1
                 add_violation(ctx, "C16", "result record differs between the two spellings of a domain: " + v["what"], case)
                 if part == 2:
                     add_violation(ctx, "C07", "U-label and A-label spellings of a domain classify differently: " + v["what"], case)
+                    if 8 in (v["exp"], v["got"]):
+                        add_violation(ctx, "C09", "reserved name recognised in one spelling of a domain and not in the other: " + v["what"], case)
             email_drift(ctx, res)
 
 
@@ -435,7 +444,7 @@ def c16(ctx):
     q = ctx.quick()
     suite_idn(ctx, (2, 3))
     # the EAV_EXTRA build: lpart / domain strings (and the same record pins) on the pool and bounded-exhaustive addresses
-    suite_email(ctx, 2, 0, variants=("extra",))
+    suite_email(ctx, 2, 0, variants=("extra", "extra-ndebug"))      # the strings must not depend on assert() being compiled in
     suite_email(ctx, 1, 4 if q else 6, variants=("extra",))
     suite_ip(ctx, 2, 0, variants=("extra",))
     suite_email(ctx, 2, 0)
@@ -467,6 +476,7 @@ def c15(ctx):
     suite_sweep(ctx, 2)         # "invalid UTF-8" only for ill-formed local parts
     suite_idn(ctx, (2, 3))      # IDN error / domain codes given the converter's answers
     suite_recorded(ctx, *((800, 800, 80) if ctx.quick() else (6000, 6000, 300)))
+    suite_random_histories(ctx, 10 if q else 100, 150, pairs=False)      # return value / errcode / message along recorded histories
     return finish(ctx, "model_checking",
                   "every code the model returns satisfies its truth predicate (TLC invariant on every enumerated state); every observed code "
                   "either equals the model's or is validated by TLC against the truth predicates (drift trace); eav_is_email return value, "
@@ -716,7 +726,8 @@ def suite_random_histories(ctx, nhist, nsteps, pool=None, wrap=True, pairs=True)
             nhist += 2 if ctx.quick() else 5
     b = build(ctx, "default", 0)
     res = replay(ctx, b, vec, "rand-hist", wrap=wrap)
-    crash_violation(ctx, res, ["C06", ctx.prop])
+    if crash_violation(ctx, res, ["C06", ctx.prop]):
+        return      # the recorded trace is cut short: nothing to validate
     tr = os.path.join(res["outdir"], "histtrace.ndjson")
     n = sum(1 for _ in open(tr))
     r = vlib.tlc(ctx, "Trace_Eav", "INIT Init\nNEXT Next\nINVARIANT Ok\nINVARIANT ModelOk\nCHECK_DEADLOCK FALSE\n", workers=1, env={"TRACE": tr}, heap="8g")
@@ -854,8 +865,8 @@ def c06(ctx):
     vecs = []
     vecs.append(("local", tlc_ok(ctx, "MC_Local", cfg({"MaxLen": 4 if q else 5, "AlphaId": 1, "OptBits": 0}))))
     vecs.append(("local3", tlc_ok(ctx, "MC_Local", cfg({"MaxLen": 4 if q else 5, "AlphaId": 3, "OptBits": 0}))))
-    vecs.append(("sweep1", tlc_ok(ctx, "MC_LocalSweep", cfg({"Part": 1, "Full": "FALSE", "OptBits": 0}))))
-    vecs.append(("sweep2", tlc_ok(ctx, "MC_LocalSweep", cfg({"Part": 2, "Full": "FALSE" if q else "TRUE", "OptBits": 0}))))
+    vecs.append(("sweep1", tlc_ok(ctx, "MC_LocalSweep", cfg({"Part": 1, "Full": "FALSE", "OptBits": 0, "EmitCli": "FALSE"}))))
+    vecs.append(("sweep2", tlc_ok(ctx, "MC_LocalSweep", cfg({"Part": 2, "Full": "FALSE" if q else "TRUE", "OptBits": 0, "EmitCli": "FALSE"}))))
     vecs.append(("idn2", tlc_ok(ctx, "MC_Idn", "CONSTANTS\n  Part = 2\n  MaxLabels = 1\nINIT Init\nNEXT Next\nINVARIANT Inv\nCHECK_DEADLOCK FALSE\n")))
     vecs.append(("idn3", tlc_ok(ctx, "MC_Idn", "CONSTANTS\n  Part = 3\n  MaxLabels = 1\nINIT Init\nNEXT Next\nINVARIANT Inv\nCHECK_DEADLOCK FALSE\n")))
     vecs.append(("host", tlc_ok(ctx, "MC_Host", cfg({"MaxLen": 0, "Gen": 2, "OptBits": 0}))))
@@ -879,6 +890,10 @@ def c06(ctx):
                 elif v["kind"] == "robust":
                     for p_ in ("C06", "C13", "C16"):
                         add_violation(ctx, p_, v["what"], {"mode": v["mode"], "len": len(v["in"]), "in_prefix": v["in"][:80], "rc": v["exp"], "result_rc": v["got"]})
+    # (1b) no input-sized stack buffers: 70 000-octet shapes through every entry point with the driver under a 64 KiB stack
+    rs3 = tlc_ok(ctx, "MC_Struct", cfg({"Tier": 3}), heap="10g")
+    res = replay(ctx, bd, rs3["out"], "c06-smallstack", stack_kb=64)
+    monitor_violation(ctx, res, "executing 70 000-octet inputs under a 64 KiB stack")
     # (2) lifecycle: object model (defined fields, heap balance) + histories under --wrap accounting and valgrind
     suite_object(ctx, 5 if q else 6, faults=True, small=True, valgrind_n=300 if q else 3000)
     # the EAV_EXTRA build allocates two more strings per accepted address: same histories, same accounting
@@ -1096,6 +1111,12 @@ def c20(ctx):
     cli.run_cli(ctx, "default", r["out"], "default")
     r2 = tlc_ok(ctx, "MC_Cli", cfg({"MaxLines": 1 if q else 2, "Tier": 1 if q else 2}), heap="10g")
     cli.run_cli(ctx, "asan", r2["out"], "asan")
+    # the local-part automata-conformance suite as one file: the tool links its own copy of the UTF-8 decoder in front of the library's
+    r3 = tlc_ok(ctx, "MC_LocalW", "CONSTANTS\n  OptBits = 0\n  MaxDepth = 12\n  EmitCli = TRUE\nINIT Init\nNEXT Next\nVIEW View\nINVARIANT Inv\nCHECK_DEADLOCK FALSE\n", heap="10g")
+    cli.run_cli_sweep(ctx, "default", r3["out"], "wsuite")
+    # ... and every UTF-8 candidate (all 2-byte sequences, 3- and 4-byte boundary cover) in six contexts
+    r4 = tlc_ok(ctx, "MC_LocalSweep", cfg({"Part": 2, "Full": "FALSE", "OptBits": 0, "EmitCli": "TRUE"}), heap="10g")
+    cli.run_cli_sweep(ctx, "default", r4["out"], "utf8sweep")
     return finish(ctx, "model_checking",
                   "TLC enumerates every file of at most MaxLines lines over the line shapes of MC_Cli (empty, blanks, comments, valid / invalid "
                   "addresses, trailing / leading blanks, CR inside, ill-formed UTF-8 at even and odd offsets, control characters, NUL, 2047..8192 "
@@ -1262,7 +1283,7 @@ def c04(ctx):
     suite_host(ctx, 2, 0)
     suite_host(ctx, 2, 0, optbits=4)        # "underscore too, only when built with LABELS_ALLOW_UNDERSCORE"
     suite_host(ctx, 1, 6 if ctx.quick() else 8)
-    suite_wmethod(ctx, "host")                 # every byte in every state of the host-name automaton (label / name counters), x W
+    suite_wmethod(ctx, "host", variants=("default", "latin1"))     # every byte in every state of the host-name automaton (label / name counters), x W
     suite_wmethod(ctx, "host", optbits=4)
     suite_recorded(ctx, *((800, 600, 80) if ctx.quick() else (6000, 5000, 300)))
     return finish(ctx, "model_checking",
@@ -1283,11 +1304,12 @@ def c05(ctx):
 
 
 def suite_sweep(ctx, part, full=False, optbits=0, variants=("default",)):
-    r = tlc_ok(ctx, "MC_LocalSweep", cfg({"Part": part, "Full": "TRUE" if full else "FALSE", "OptBits": optbits}))
+    r = tlc_ok(ctx, "MC_LocalSweep", cfg({"Part": part, "Full": "TRUE" if full else "FALSE", "OptBits": optbits, "EmitCli": "FALSE"}))
     sample_vectors(ctx, r["out"])
     for var in variants:
-        b = build(ctx, var, optbits)
-        res = replay(ctx, b, r["out"], "sweep-p%d-o%d" % (part, optbits))
+        b = build(ctx, "default" if var == "latin1" else var, optbits)
+        # "latin1": the default build called from a process that has switched to a single-byte locale (bytes >= 0x80 are letters there)
+        res = replay(ctx, b, r["out"], "sweep-p%d-o%d-%s" % (part, optbits, var), env=vlib.latin1_locale(ctx) if var == "latin1" else None)
         crash_violation(ctx, res, ["C06", ctx.prop])
         for v in res["viol"]:
             classify_local(ctx, v, optbits)
@@ -1299,7 +1321,7 @@ def suite_wmethod(ctx, what="local", optbits=0, variants=("default",)):
     characterising set W (VIEW), then access string x every byte x W executed on the real validators"""
     tier = 1 if ctx.quick() else 2
     if what == "local":
-        mod, consts, need = "MC_LocalW", "  OptBits = %d\n  MaxDepth = 12\n" % optbits, 40
+        mod, consts, need = "MC_LocalW", "  OptBits = %d\n  MaxDepth = 12\n  EmitCli = FALSE\n" % optbits, 40
     elif what == "host":
         mod, consts, need = "MC_HostW", "  OptBits = %d\n  MaxDepth = 12\n  Tier = %d\n" % (optbits, tier), 30
     else:
@@ -1311,8 +1333,8 @@ def suite_wmethod(ctx, what="local", optbits=0, variants=("default",)):
         raise Infra("%s found only %d access strings: the characterising set no longer separates the grammar's states" % (mod, acc))
     sample_vectors(ctx, r["out"])
     for var in variants:
-        b = build(ctx, var, optbits)
-        res = replay(ctx, b, r["out"], "wmethod-%s-o%d" % (what, optbits))
+        b = build(ctx, "default" if var == "latin1" else var, optbits)
+        res = replay(ctx, b, r["out"], "wmethod-%s-o%d-%s" % (what, optbits, var), env=vlib.latin1_locale(ctx) if var == "latin1" else None)
         crash_violation(ctx, res, ["C06", ctx.prop])
         for v in res["viol"]:
             if what == "local":
@@ -1330,8 +1352,9 @@ def c02(ctx):
     else:
         suite_local(ctx, 1, 5)
         suite_local(ctx, 2, 6)
-    suite_sweep(ctx, 1, variants=("default", "uchar"))     # also where plain char is unsigned (ARM, PowerPC)
-    suite_wmethod(ctx, "local")                            # every byte in every state of the grammar automaton, x W
+    suite_sweep(ctx, 1, variants=("default", "uchar", "latin1"))   # also where plain char is unsigned (ARM, PowerPC), and when the
+    # calling process has switched to a single-byte locale in which bytes >= 0x80 are letters
+    suite_wmethod(ctx, "local", variants=("default", "latin1"))    # every byte in every state of the grammar automaton, x W
     suite_email(ctx, 2, 0)                                 # the same rules in front of every kind of domain
     suite_recorded(ctx, *((600, 900, 120) if ctx.quick() else (5000, 8000, 400)))
     return finish(ctx, "model_checking",
@@ -1349,7 +1372,7 @@ def c03(ctx):
         suite_local(ctx, 3, 5)
         suite_local(ctx, 1, 5)
     suite_sweep(ctx, 1, variants=("default", "uchar"))
-    suite_sweep(ctx, 2, full=not ctx.quick(), variants=("default", "uchar"))
+    suite_sweep(ctx, 2, full=not ctx.quick(), variants=("default", "uchar", "latin1"))
     suite_wmethod(ctx, "local")
     suite_email(ctx, 2, 0)
     suite_recorded(ctx, *((600, 900, 120) if ctx.quick() else (5000, 8000, 400)))
